@@ -757,3 +757,5 @@ func stripConv(v ssa.Value) ssa.Value {
 		}
 	}
 }
+
+func sortStrings(s []string) { sort.Strings(s) }
